@@ -31,6 +31,7 @@ def run(ctx):
     for cfgname, F in ctx.F.items():
         conf = confirming_lookups(F)
         verdicts = {}
+        undecided_engine = False
         for fn, tag in ENGINES:
             if not F.nested(fn):
                 if tag == 'async' and cfgname == 'default':
@@ -42,7 +43,10 @@ def run(ctx):
             r2(sub, F, sc)
             r3(sub, F, sc)
             verdicts[tag] = sub.vector
-        if len(verdicts) == 2:
+            undecided_engine = undecided_engine or getattr(sub, 'und', False)
+        if len(verdicts) == 2 and undecided_engine:
+            ctx.undecided('C01.R6', 'sibling agreement (%s): one engine has a shape the scan rules do not read, so the two verdict vectors are not comparable' % cfgname)
+        elif len(verdicts) == 2:
             a, b = verdicts['sync'], verdicts['async']
             diff = sorted(k for k in set(a) | set(b) if a.get(k) != b.get(k))
             ctx.check(not diff, 'C01.R6', 'sibling-agreement:%s' % cfgname, '%d rule instances agree' % len(a),
@@ -92,6 +96,7 @@ class _Rec:
         self.ctx.missing(rid, sym)
 
     def undecided(self, rid, what):
+        self.und = True
         self.ctx.undecided(rid, what)
 
 
@@ -158,6 +163,19 @@ def r1(ctx, F, sc, conf):
                 why = 'copy offset does not derive from the matched block index'
                 continue
             ok = True
+        if not ok and not guards:
+            # no Some edge of a lookup leads here - but the copy's offset may still be computed from what a confirming lookup
+            # returned, handed through combinators the edge rules do not follow (`gate.then(|| lookup).flatten()`): not decided
+            off_o = fl.origins(pt['args'][1])
+            via = [callee(lt) for lb, lt in sc.lookups if any(o.kind == 'call' and o.bb == lb for o in off_o) and conf.get(callee(lt), (False,))[0]]
+            if not via and off_o and all('offset' in o.path and o.kind in ('call', 'param', 'upvar') for o in off_o if o.kind != 'comb'):
+                # `match op { DeltaOp::Copy { offset, len } => out.push_copy(offset, len) }`: an operation computed elsewhere is
+                # appended again (stitching the parts of a split scan): where it was confirmed is not this site
+                ctx.undecided('C01.R1', '%s: a copy operation computed elsewhere is re-emitted (offset = field of an existing DeltaOp::Copy)' % tag)
+                continue
+            if via:
+                ctx.undecided('C01.R1', '%s: the copy takes its offset from %s, but not under an edge the rule follows' % (tag, via[0].split('::')[-1]))
+                continue
         ctx.check(ok, 'C01.R1', '%s:push_copy' % tag, 'guarded by a confirming lookup on source[pos..pos+block_size]; len = block_size; offset <- sig.index',
                   'a copy is emitted without BLAKE3 confirmation of exactly the bytes it stands for: %s' % why, term_loc(b, pb))
 
@@ -187,6 +205,10 @@ def r2(ctx, F, sc):
                     rr |= cfg.reach(s, cut_blocks=[head])
                 if y in rr:
                     exclusive = False
+    if len(emit_c) != 1 or len(emit_l) != 1:
+        # another loop shape (emissions in helpers, several scan loops): the per-iteration accounting is not read from it
+        ctx.undecided('C01.R2', '%s: the scan loop does not have the one-copy / one-literal-byte shape (copies=%d, literal bytes=%d): accounting not decided' % (tag, len(emit_c), len(emit_l)))
+        return
     ctx.check(exhaustive and exclusive and len(emit_c) == 1 and len(emit_l) == 1, 'C01.R2', '%s:one-emission-per-iteration' % tag,
               'every iteration emits exactly one of {push_copy, push_literal_byte}',
               'an iteration of the scan loop can emit nothing or two ops (exhaustive=%s, exclusive=%s, copies=%d, literal bytes=%d): lengths would not sum to the source size'
@@ -204,7 +226,7 @@ def r2(ctx, F, sc):
             if st[0] == 'phi' and st[1] in pos_cands:
                 pos = st[1]
     if pos is None:
-        ctx.bad('C01.R2', '%s:cursor' % tag, 'cannot identify the scan cursor (start of the confirmed window)', term_loc(b, head))
+        ctx.undecided('C01.R2', '%s: cannot identify the scan cursor (start of the confirmed window)' % tag)
         return
     assigns = []
     for bi in blocks:
